@@ -1040,7 +1040,16 @@ func (x *Exec) exitAsserts(ord int, st *State, pos token.Pos) {
 			st.assume(t)
 			continue
 		}
-		x.oblige(st, "assert", fmt.Sprintf("%s@%s", label, anchor), t, pos, a.Cl.Src)
+		ost := st
+		if len(a.By) > 0 {
+			// ground instances of the named lemmas (each lemma is proved by
+			// its own obligations): hypotheses of this assertion only
+			ost = st.clone()
+			for _, call := range a.By {
+				ost.assume(x.lemmaInstance(env, call))
+			}
+		}
+		x.oblige(ost, "assert", fmt.Sprintf("%s@%s", label, anchor), t, pos, a.Cl.Src)
 		st.assume(t)
 	}
 }
